@@ -122,7 +122,10 @@ impl Window {
     }
 }
 
-/// Content of one assertion. `conf` is in tenths, 0 = unstated.
+/// `conf` code of a STATED confidence of exactly 0.0 (0 itself means unstated).
+pub const CONF_ZERO: u8 = 100;
+
+/// Content of one assertion. `conf` is in tenths (1..=10), 0 = unstated, CONF_ZERO = stated 0.0.
 #[derive(Clone, Copy, Debug, PartialEq, Eq, PartialOrd, Ord, Hash, Serialize, Deserialize)]
 pub struct Spec {
     /// false: about the proposition (subject, pred, v0); true: about the other value (subject, pred, v1).
@@ -148,6 +151,14 @@ impl Spec {
             window: Window::NONE,
         }
     }
+    /// The stated confidence in tenths, None when unstated.
+    pub fn stated_tenths(&self) -> Option<u8> {
+        match self.conf {
+            0 => None,
+            CONF_ZERO => Some(0),
+            c => Some(c),
+        }
+    }
     pub fn short(&self) -> String {
         let ev: String = (0..N_EVIDENCE)
             .filter(|i| self.ev >> i & 1 == 1)
@@ -159,10 +170,11 @@ impl Spec {
             self.actor,
             ev,
             self.stance.letter(),
-            if self.conf == 0 {
-                "-".to_string()
-            } else {
-                format!(".{}", self.conf)
+            match self.conf {
+                0 => "-".to_string(),
+                CONF_ZERO => "0.0".to_string(),
+                10 => "1.0".to_string(),
+                c => format!(".{c}"),
             }
         );
         if self.mode != Mode::Stated {
